@@ -55,7 +55,7 @@ for _l, _cls in (("rust", "2-byte expando U+00B5; the shared pre_process_pattern
                  ("java", "no expando: sigil kept"), ("css", "U+00B5 since the fix of D11")):
     H(prop="C20", name=f"c20_lang_pipeline_{_l}", crate="lang-h", module="c20_lang_spelling", features=[], timeout=1800, mem_gb=20,
       decides=f"for L = {_l} ({_cls}): " + _DEC_LANG, functions=LANG_FUNCS, assumes=[LANG_ASSUME], shape="STR",
-      bounds="24 concrete spellings ($A $$A $_ $$_ $$$ $$$A | $$$_ $_X $$_X $$$_X $Z $A_1 | $a $1 $ $$ $$$$ $$$$A | $ZA $$Z0 $Aa $$$a $A$B A). " + _NOTE_LANG + "; unwind 25")
+      bounds="spelling: symbolic index into a table of 24 spellings, case-split ($A $$A $_ $$_ $$$ $$$A | $$$_ $_X $$_X $$$_X $Z $A_1 | $a $1 $ $$ $$$$ $$$$A | $ZA $$Z0 $Aa $$$a $A$B A). " + _NOTE_LANG + "; unwind 25")
 for _i, _rng in enumerate(("Bash C Cpp CSharp Css Elixir", "Go Haskell Html Java JavaScript Json", "Kotlin Lua Php Python Ruby Rust", "Scala Swift Tsx TypeScript Yaml")):
     H(prop="C20", name=f"c20_lang_named_spellings_l{_i}", crate="lang-h", module="c20_lang_spelling", features=[], timeout=3000, mem_gb=20, tier="thorough",
       decides="for every built-in language L of the range: " + _DEC_LANG, functions=LANG_FUNCS, assumes=[LANG_ASSUME], shape="STR",
@@ -92,6 +92,10 @@ H(prop="C11", name="c11_nth_is_matched_total", crate="config-h", module="anb",
   decides="is_matched never panics (sub/div/rem overflow) for any (step, offset) in i32^2",
   functions=ANB_FUNCS[1:], shape="INT", bounds="step, offset: full i32; index < 2^31-2")
 
+H(prop="C01", name="c01_potential_kinds_terminal", crate="core-h", module="c01_prefilter", features=["hooks", "n4"], timeout=1200, mem_gb=20, tier="lab",
+  decides="Pattern::match_node_with_env(X) is Some ==> Pattern::potential_kinds() is None or contains X's kind (the kind gate of FindAllNodes never drops a node a one-token pattern matches)",
+  functions=["ast_grep_core::matcher::pattern::Pattern::potential_kinds", "ast_grep_core::matcher::pattern::Pattern::match_node_with_env"],
+  assumes=[ST_TS], shape="FLAT(1)", bounds="pattern = one terminal token (5 kinds, ERROR excluded: a BitSet holding kind 65535 is out of the unwinding bound; named bit; 1-byte text), 5 strictness levels; candidate leaf: 5 kinds; unwind 8")
 H(prop="C01", name="c01_prefilter_terminal", crate="core-h", module="c01_prefilter", features=["hooks", "n4"],
   decides="Pattern::match_node_with_env(X) is Some ==> X.text() contains Pattern::fixed_string() (soundness of the CLI's literal-substring file prefilter), single-terminal patterns",
   functions=["ast_grep_core::matcher::pattern::Pattern::fixed_string", "ast_grep_core::matcher::pattern::PatternNode::fixed_string",
